@@ -341,6 +341,12 @@ func main() {
 					a := buildFetch(r, v, l.magic, l.n, l.batches, codec, j)
 					emit(a, follower(a))
 				}
+				// Conn.ReadMessage and Conn.Read: one record, then the batch is closed by the library itself
+				for _, via := range []string{"ReadMessage", "Read"} {
+					a := buildFetch(r, v, l.magic, l.n, l.batches, codec, 1)
+					a.sh.Via = via
+					emit(a, follower(a))
+				}
 			}
 		}
 	}
@@ -359,6 +365,16 @@ func main() {
 				c = follower(a)
 			}
 			l, slow := chain(a, b, c, int32(1+r.Intn(9)))
+			fmt.Fprintln(out, l)
+			nchain++
+			if slow {
+				nslow++
+			}
+			// the coincidence that made C11-D30: the stray response carries exactly the NEXT request's id, and the next
+			// request is the same operation (so the stray body parses): it must not be taken for that request's answer
+			a2, _ := build(r, op, v, nil, false)
+			b2, _ := build(r, op, v, nil, false)
+			l, slow = chain(a2, b2, follower(a2), 1)
 			fmt.Fprintln(out, l)
 			nchain++
 			if slow {
